@@ -7,7 +7,8 @@ outputs and the list of their graph-valued attributes ("bodies", in attribute or
 `Attr.type in (GRAPH, GRAPHS)`, src/onnx_ir/_core.py).
 
 The semantics is parameterised by an arbitrary interpretation `Interp Val`:
-`sem op attrs bodies args` is ANY function (determinism is exactly "it is a function"); the bodies it
+`sem op attrs bodies args tag` is ANY function (determinism is exactly "it is a function"; the tag lets
+the stochastic operators of `isStochasticOp` differ from node to node); the bodies it
 receives are the denotations of the node's graph attributes under the environment that holds at the
 node (captured outer values are visible to them).  Two operators are fixed: `Identity` (domain "")
 returns its argument, `Constant` (domain "" / the pass's spelling "onnx.ai") returns the tensor
@@ -99,8 +100,11 @@ abbrev BodyFn (Val : Type) := List Val → List (Option Val)
 
 structure Interp (Val : Type) where
   /-- any function: operator id, attributes, body denotations, arguments (trailing omitted
-      inputs stripped) ↦ results -/
-  sem : OpId → List (String × AttrData) → List (BodyFn Val) → List (Option Val) → List Val
+      inputs stripped), node tag ↦ results.  The tag is `[]` for every operator except the stochastic
+      ones (`isStochasticOp`), for which it is the node's output ids: two nodes of a stochastic
+      operator may produce different values on equal arguments (a per-node oracle), every other
+      operator is deterministic (a function of operator, attributes, bodies and arguments). -/
+  sem : OpId → List (String × AttrData) → List (BodyFn Val) → List (Option Val) → List VId → List Val
   /-- value of a constant tensor -/
   tv : Tensor → Val
 
@@ -152,13 +156,19 @@ def constOf (op : OpId) (attrs : List (String × AttrData)) : Option Tensor :=
     | _ => none
   else none
 
-/-- results of one node given its evaluated arguments and body denotations -/
-def nodeResults (I : Interp Val) (op : OpId) (attrs : List (String × AttrData))
+/-- ONNX operators that draw random numbers (without a `seed` attribute every node draws its own):
+    RandomUniform, RandomNormal, RandomUniformLike, RandomNormalLike, Multinomial, Bernoulli -/
+def isStochasticOp (op : OpId) : Bool :=
+  ["RandomUniform", "RandomNormal", "RandomUniformLike", "RandomNormalLike", "Multinomial", "Bernoulli"].contains
+    op.name && op.domain == ""
+
+/-- results of one node (with outputs `outs`) given its evaluated arguments and body denotations -/
+def nodeResults (I : Interp Val) (op : OpId) (attrs : List (String × AttrData)) (outs : List VId)
     (bodies : List (BodyFn Val)) (args : List (Option Val)) : List (Option Val) :=
   if isIdentityOp op && args.length == 1 then args
   else match constOf op attrs with
     | some t => [some (I.tv t)]
-    | none => (I.sem op attrs bodies args).map some
+    | none => (I.sem op attrs bodies args (if isStochasticOp op then outs else [])).map some
 
 def evalArgs (ρ : Env Val) (ins : List (Option VId)) : List (Option Val) :=
   ins.map (fun o => o.bind ρ)
@@ -180,7 +190,7 @@ def evalNodes (I : Interp Val) : List Node → Env Val → Env Val
   | n :: ns, ρ => evalNodes I ns (evalN I n ρ)
 def evalN (I : Interp Val) : Node → Env Val → Env Val
   | .mk op attrs ins outs bodies, ρ =>
-    ρ.bind outs (nodeResults I op attrs (evalBodies I bodies ρ) (evalArgs ρ (trimNone ins)))
+    ρ.bind outs (nodeResults I op attrs outs (evalBodies I bodies ρ) (evalArgs ρ (trimNone ins)))
 def evalBodies (I : Interp Val) : List Graph → Env Val → List (BodyFn Val)
   | [], _ => []
   | b :: bs, ρ => (fun xs => evalG I b ρ xs) :: evalBodies I bs ρ
